@@ -849,6 +849,14 @@ class ModelHist(Engine):
             init_defaults.append([["int", None, None], ["int", rw.choice([-3, 0, 2, 9])]])
         if rw.random() < 0.25:
             init_defaults.append([["real", None, None], rw.choice([["real", "-1/2"], ["int", 7], ["real", "9/2"], ["int", 1]])])
+        # a default for a user type that has sub-types: it is a default for fluents of THAT type only
+        if rw.random() < 0.25:
+            parents = sorted({f for _, f in world["types"] if f is not None})
+            if parents:
+                pt = rw.choice(parents)
+                exact = [o for o, ot in world["objects"] if ot == pt]
+                if exact:
+                    init_defaults.append([["user", pt], ["o", rw.choice(exact)]])
         idf_faulty = None
         if rw.random() < 0.08:
             t = rw.choice([["bool"], ["int", 0, 5], ["user", "T"]])
